@@ -45,7 +45,7 @@ class Ob:
 
 def _child_env(extra: Optional[Dict[str, str]] = None) -> Dict[str, str]:
     env = dict(os.environ)
-    env["PYTHONPATH"] = str(ROOT) + os.pathsep + "/repo/src"
+    env["PYTHONPATH"] = str(ROOT) + os.pathsep + os.environ.get("VF_REPO", "/repo") + "/src"
     env["PYTHONHASHSEED"] = "0"
     env.pop("VF_WITNESS", None)
     env.pop("VF_NOSTUBS", None)
@@ -332,7 +332,7 @@ def run_property(prop: str, modules: List[str], tier: str, seed: int) -> int:
 
 def _write_evidence(prop, tier, seed, t0, jobs, twins, corpus_cases, functions, assumptions, bounds, *, violations,
                     harness_errors, known_hits, spurious=(), extra_samples=(), **_):
-    ev_dir = ROOT / "evidence"
+    ev_dir = Path(os.environ["VF_EVIDENCE_DIR"]) if os.environ.get("VF_EVIDENCE_DIR") else ROOT / "evidence"  # (sweeps of seeded changes must not overwrite the evidence of the real tree)
     ev_dir.mkdir(exist_ok=True)
     paths = sum(j["result"].get("paths", 0) for j in jobs)
     nontrivial = sum(j["result"].get("ok", 0) + j["result"].get("refuted", 0) for j in jobs)
